@@ -2,7 +2,12 @@
    L D L' = A): UNBOUNDED contract proofs -- symbolic dimension d <= 2^15 and band width b, loop contracts on every loop --
    for the band / packed Cholesky code of lib/matvec, bodies extracted from /repo on every run.
 
-     CovMat::cholDec()          check covmat_cholDec
+     CovMat::cholDec()          checks covmat_cholDec (scaling pass + row loop), covmat_cholDec_row (one pass of the row
+                                loop), covmat_cholDec_elim (one pass of the elimination loop)   -- see OUTLINING below
+     CovMat::operator[] / ()    checks covmat_row*_tab, covmat_at*_tab (table form of the accessor contracts)
+     CovMat::solve(Vec&)        checks covmat_solve (conforming rhs), covmat_solve_anydim (any rhs: FAILS, finding)
+     SymMat::cholDec()          check symmat_cholDec
+     SymMat::solve(Vec&)        check symmat_solve (thorough)
    Obligations per function: (a) memory safety and frame, (b) the exception behaviour demanded by C10/C15 and the sign of
    the pivots left behind, (c) termination (decreases clause on every loop).
 
@@ -149,8 +154,10 @@ static inline Float *CVP_at(struct CovMat *self, Index r, Index s)
 /* ---- CovMat::solve: conformity of the right-hand side; exclusion predicate of the finding "solve does not check it" */
 #ifdef GV_EXCL_SOLVE_NONCONFORMING
 #define CVP_EXCL_CONFORMING(A, v) __CPROVER_assume((v)->mem.sz == (A)->base.row_)
+#define CVP_EXCL_CONFORMING_SYM(A, v) __CPROVER_assume((v)->mem.sz == (A)->dim_)
 #else
 #define CVP_EXCL_CONFORMING(A, v)
+#define CVP_EXCL_CONFORMING_SYM(A, v)
 #endif
 #define CVP_RHS_OK(A, v)                                                                                   \
   (WF_MEM(&(v)->mem) && (v)->mem.sz <= CVP_MAXD && !SAME((v), (A)) && !SAME((v)->mem.rep, (A)) && !SAME((v)->mem.rep, (v)) && \
@@ -165,6 +172,7 @@ static inline Float *CVP_at(struct CovMat *self, Index r, Index s)
 Index gv_zeros;  /* ghost: pivots zeroed by the rank test of SymMat::cholDec */
 Index gv_wi;     /* ghost: row whose pivot passed the rank test last (witness of BadRank) */
 Float gv_wx;     /* ghost: that pivot */
+long gv_pos;     /* ghost: an arbitrary offset into the buffer (frame of one inner pass: only element (i,j) is written) */
 static void mk_sym(struct SymMat *A)
 {
   Index d;
@@ -263,8 +271,10 @@ __CPROVER_requires(gv_exc == 0)
 __CPROVER_assigns(gv_exc, gv_wrow, gv_tol, gv_q, gv_d0, gv_allnum; self->base.mem.sz > 0: __CPROVER_object_whole(self->base.mem.rep))
 __CPROVER_ensures((self->base.row_ == 0) == (gv_exc == GV_BadRank))
 __CPROVER_ensures(gv_exc == 0 || gv_exc == GV_BadRank || gv_exc == GV_NonPositiveDefinite)
+/* refused: the diagonal gives no usable tolerance (a diagonal element is not a number), or there is a witness row whose
+   pivot is not greater than the tolerance */
 __CPROVER_ensures(gv_exc == GV_NonPositiveDefinite ==>
-                  (1 <= gv_wrow && gv_wrow <= self->base.row_ && REP(self)[TAB(gv_wrow)] <= gv_tol))
+                  (!(gv_tol >= 0) || (1 <= gv_wrow && gv_wrow <= self->base.row_ && !(REP(self)[TAB(gv_wrow)] > gv_tol))))
 __CPROVER_ensures((gv_exc == 0 && 1 <= gv_k0 && gv_k0 <= self->base.row_) ==>
                   (REP(self)[TAB(gv_k0)] > gv_tol && gv_tol >= 0 && REP(self)[TAB(gv_k0)] > 0))
 __CPROVER_ensures((gv_exc != GV_BadRank && gv_allnum && 1 <= gv_k0 && gv_k0 <= self->base.row_) ==> (gv_q >= 0 && gv_q >= gv_d0))
@@ -284,9 +294,10 @@ CVP_USE_STEP(N, W, row);
 CVP_EXCL_NOT_NAN(B[n]);
 if (B[n] != B[n]) gv_allnum = 0;
 if (row == gv_k0) gv_d0 = B[n];
-//@ pre CovMat_cholDec 2
+//@ at CovMat_cholDec tolguard
 gv_tol = Tol;
 gv_q = q;
+//@ pre CovMat_cholDec 2
 __CPROVER_assert(Tol >= 0, "the tolerance is a number >= 0");
 //@ loop CovMat_cholDec 2
 __CPROVER_assigns(row, B, p, k, n, l, q, pivot, gv_exc, gv_wrow, __CPROVER_object_whole(REP(self)))
@@ -344,7 +355,9 @@ __CPROVER_requires(__CPROVER_rw_ok(B__p, sizeof(Float *)) && !SAME(B__p, self) &
 __CPROVER_requires(SAME(*B__p, REP(self)) && OFF(*B__p) == OFF(REP(self)) + FSZ * TAB(row))
 __CPROVER_assigns(gv_exc, *B__p, __CPROVER_object_whole(REP(self)))
 __CPROVER_ensures(gv_exc == 0 || gv_exc == GV_NonPositiveDefinite)
-__CPROVER_ensures((gv_exc == GV_NonPositiveDefinite) == (__CPROVER_old(REP(self)[TAB(row)]) <= Tol))
+/* from the property, not from the comparison the code happens to use: a pivot is ACCEPTED iff it is greater than the
+   tolerance -- a pivot (or tolerance) that is not a number is not */
+__CPROVER_ensures((gv_exc == GV_NonPositiveDefinite) == !(__CPROVER_old(REP(self)[TAB(row)]) > Tol))
 __CPROVER_ensures(gv_exc == GV_NonPositiveDefinite ==> MV_SAMEVAL(REP(self)[TAB(row)], __CPROVER_old(REP(self)[TAB(row)])))
 __CPROVER_ensures(gv_exc == 0 ==> REP(self)[TAB(row)] > Tol)
 __CPROVER_ensures(gv_exc == 0 ==> (SAME(*B__p, REP(self)) && OFF(*B__p) == OFF(REP(self)) + FSZ * TAB(row + 1)))
@@ -512,6 +525,11 @@ __CPROVER_decreases((long)i + 1 - j)
 //@ head SymMat_cholDec 2
 CVP_USE_TRI_STEP(n, j);
 if (j < i) CVP_USE_TRI_MONO(n, j + 1, i);
+const Float gv_snap = (0 <= gv_pos && gv_pos < self->base.mem.sz) ? REP(self)[gv_pos] : 0;
+const long gv_elem = TRI(i) + (j - 1);   /* offset of element (i,j) */
+//@ tail SymMat_cholDec 2
+__CPROVER_assert((0 <= gv_pos && gv_pos < self->base.mem.sz && gv_pos != gv_elem) ==> MV_SAMEVAL(REP(self)[gv_pos], gv_snap),
+                 "the pass for (i,j) writes element (i,j) of the packed triangle and no other");
 //@ loop SymMat_cholDec 3
 __CPROVER_assigns(k, ir, x)
 __CPROVER_loop_invariant(iq <= k && k <= ip + 1 && ir == TRI(j) + (k - iq))
@@ -521,6 +539,57 @@ gv_zeros = gv_zeros + 1;
 //@ at SymMat_cholDec rank_passed
 gv_wi = i;          /* placed in front of the statement `if (x < 0) throw ...` (inside the braces of the rank-test branch) */
 gv_wx = x;
+//@ end
+
+/* ------------------------------------------------------------------------------------------------------------------
+   SymMat::solve(rhs)  (forward and backward substitution with the factor left by SymMat::cholDec)
+   Same obligations as CovMat::solve: (a) the walk `*a++` of the forward pass and the direct index a[j(j-1)/2+i-1] of
+   the backward pass stay inside the packed buffer (lemma tri_op: TRI(j) is the product the code computes), b stays
+   inside rhs, only rhs is assigned; (b) C15: rhs.dim() != dim() ==> BadRank; (c) decreases on the four loops.      */
+//@ contract SymMat_solve
+__CPROVER_requires(CVP_WF_SYM(self) && CVP_RHS_OK(self, rhs) && gv_exc == 0)
+__CPROVER_assigns(gv_exc, __CPROVER_object_whole(rhs->mem.rep))
+__CPROVER_ensures(rhs->mem.sz != self->dim_ ==> gv_exc == GV_BadRank)
+__CPROVER_ensures(rhs->mem.sz == self->dim_ ==> gv_exc == 0)
+//@ entry SymMat_solve
+GV_CANARY("SymMat_solve entry");
+Float *const gv_r0 = rhs->mem.rep;
+//@ pre SymMat_solve 1
+CVP_USE_TRI_FIRST(N);
+//@ loop SymMat_solve 1
+__CPROVER_assigns(i, j, a, b, sum, __CPROVER_object_whole(gv_r0))
+__CPROVER_loop_invariant(1 <= i && i <= N + 1 && SAME(a, REP(self)) && OFF(a) == OFF(REP(self)) + FSZ * TRI(i))
+__CPROVER_decreases((long)N + 1 - i)
+//@ head SymMat_solve 1
+GV_ANCHOR(a, REP(self) + TRI(i));
+CVP_USE_TRI_STEP(N, i);
+//@ loop SymMat_solve 2
+__CPROVER_assigns(j, a, b, sum)
+__CPROVER_loop_invariant(1 <= j && j <= i && SAME(a, REP(self)) && OFF(a) == OFF(REP(self)) + FSZ * (TRI(i) + (j - 1)) &&
+                         SAME(b, gv_r0) && OFF(b) == OFF(gv_r0) + FSZ * ((long)j - 1))
+__CPROVER_decreases((long)i - j)
+//@ head SymMat_solve 2
+GV_ANCHOR(a, REP(self) + (TRI(i) + (j - 1)));
+GV_ANCHOR(b, gv_r0 + (j - 1));
+//@ at SymMat_solve fwd_diag
+GV_ANCHOR(a, REP(self) + (TRI(i) + (i - 1)));
+GV_ANCHOR(b, gv_r0 + (i - 1));
+//@ loop SymMat_solve 3
+__CPROVER_assigns(i, j, b, sum, __CPROVER_object_whole(gv_r0))
+__CPROVER_loop_invariant(0 <= i && i <= N)
+__CPROVER_decreases((long)i)
+//@ loop SymMat_solve 4
+__CPROVER_assigns(j, b, sum)
+__CPROVER_loop_invariant(i <= j && j <= N && SAME(b, gv_r0) && OFF(b) == OFF(gv_r0) + FSZ * (long)j)
+__CPROVER_decreases((long)j - i)
+//@ head SymMat_solve 4
+GV_ANCHOR(b, gv_r0 + j);
+CVP_USE_TRI_OP(N, j);
+CVP_USE_TRI_STEP(N, j);
+//@ at SymMat_solve bwd_diag
+GV_ANCHOR(b, gv_r0 + i);
+CVP_USE_TRI_OP(N, i);
+CVP_USE_TRI_STEP(N, i);
 //@ end
 
 //@ harness
@@ -632,10 +701,28 @@ void h_symmat_cholDec(void)
   Float tol;
   A.tol_ = tol;
   Index k0;
+  long pos;
   gv_k0 = k0;
+  gv_pos = pos;
   gv_exc = 0;
   Index w_dim = A.dim_;
   SymMat_cholDec(&A);
   GV_CANARY("h_symmat_cholDec end");
+}
+
+void h_symmat_solve(void)
+{
+  struct SymMat A;
+  struct Vec x;
+  mk_sym(&A);
+  mk_vec(&x);
+#if CVP_CONFORMING
+  __CPROVER_assume(x.mem.sz == A.dim_);
+#endif
+  CVP_EXCL_CONFORMING_SYM(&A, &x);
+  gv_exc = 0;
+  Index w_dim = A.dim_, w_rhsdim = x.mem.sz;
+  SymMat_solve(&A, &x);
+  GV_CANARY("h_symmat_solve end");
 }
 //@ end
